@@ -118,6 +118,11 @@ var $callDeferred = (deferred, jsErr, fromPanic) => {
         // We are at the end of the function, handle the error or re-throw to
         // continue unwinding if necessary, or simply stop unwinding if we got far
         // enough.
+        if (run.aborted) {
+            /* The panic this invocation resumed was replaced and the replacement has been
+               dealt with: the remaining deferred calls do not run during a panic. */
+            $panicStackDepth = null;
+        }
         $callDeferred(deferred, e, fromPanic);
     } finally {
         if (localPanicValue !== undefined) {
